@@ -114,6 +114,9 @@ class Aggregate:
             self.digests[idx] = res.get("digest")
         if res.get("sample") is not None and len(self.samples) < 3:
             self.samples.append(res["sample"])
+        if res.get("violations") and res.get("trace_patch"):
+            trace = dict(trace)
+            trace.update(res["trace_patch"])  # e.g. the schedule actually taken, for exact replay
         for v in res.get("violations", []):
             sig = v["signature"]
             ent = self.violations.setdefault(sig, {"count": 0, "cases": []})
